@@ -577,6 +577,12 @@ func (r *Resolver) groupLookup(ctx context.Context, rs *resolveState, req *dns.M
 	}
 	key := strconv.FormatUint(cache.Key(q), 10) + "|" + servers.Zone +
 		"|" + string(cd) + "|" + strconv.FormatUint(servers.Fingerprint(), 10)
+	// A forwarded client subnet is part of the question as the authority
+	// sees it: two clients in different networks must not share one answer,
+	// which may be tailored to - and scoped for - only one of them.
+	if sub := subnetOption(req); sub != nil {
+		key += "|" + strconv.Itoa(int(sub.Family)) + "/" + strconv.Itoa(int(sub.SourceNetmask)) + "/" + sub.Address.String()
+	}
 
 	// The leader closure can outlive this caller: TimedDoChan returns on this
 	// caller's timeout/cancel while the shared generation remains registered
